@@ -35,7 +35,7 @@ PROPS["C13"] = {
     "exhaustive_note": "the small universes are enumerated completely; they validate the model, the unbounded claim is the theorem",
     "assumptions": ["sets are what ParseGtidSet produces (normalised, non-empty interval lists): hypothesis WF, checked on every trace record"],
     "min_lines": 20000,
-    "level_text": "Theorems for all well-formed GTID sets (any number of uuids, tags, intervals): Contain = set inclusion, behind/ahead, interval subtraction = set difference (two-pointer loop, by induction), GTIDDiff classification, split-brain soundness and completeness, most-recent = maximal element or split brain iff none exists; Normalize (sort + merge) keeps exactly the numbers it was given for ANY interval list and Update is set union (executed ∪ retrieved is an upper bound of both). Correspondence: every function incl. the library ones compared with the model exhaustively on small universes and on random large sets, plus an independent bitset reference.",
+    "level_text": "Theorems for all well-formed GTID sets (any number of uuids, tags, intervals): Contain = set inclusion, behind/ahead, interval subtraction = set difference (two-pointer loop, by induction), GTIDDiff classification, split-brain soundness and completeness, most-recent = maximal element or split brain iff none exists; Normalize (sort + merge) keeps exactly the numbers it was given for ANY interval list and Update is set union (executed ∪ retrieved is an upper bound of both), yields the normal form and keeps sets well-formed, so the relation theorems apply to joined positions. Correspondence: every function incl. the library ones compared with the model exhaustively on small universes and on random large sets, plus an independent bitset reference.",
     "level_note": "Trusted: Lean kernel; go-mysql's parser/Contain/Equal/Normalize are modelled and differential-checked, not verified; the Go harness and replay tool.",
     "technique": "Lean 4 proof (induction over interval lists / association lists) + exhaustive differential check of the model against the Go functions",
 }
